@@ -2731,7 +2731,10 @@ def _transition_to_file(
             shutil.rmtree(full_path)
         else:
             try:
-                os.rmdir(full_path)
+                # Git does not know empty directories: whatever hierarchy of
+                # them is left here goes; a file anywhere below stops it.
+                for dirpath, _dirnames, _filenames in os.walk(full_path, topdown=False):
+                    os.rmdir(dirpath)
             except OSError as e:
                 if e.errno in (errno.ENOTEMPTY, errno.EEXIST):
                     raise IsADirectoryError(
